@@ -8,6 +8,7 @@ import SqlizeModel.Proofs.SpecUnchanged
 import SqlizeModel.Proofs.SchemaIgnoring
 import SqlizeModel.Proofs.RoundsDown
 import SqlizeModel.Proofs.RoundsHash
+import SqlizeModel.Proofs.AvroScripts
 
 namespace Sqlize
 open Spec Spec.Scope
@@ -290,5 +291,31 @@ theorem proved_chain_down (g : Globals) (hg : g.dialect = .mysql) (hio : g.ignor
     (Proved.chainDown_spec _ hd)
   rw [hmap'] at this
   exact this
+
+-- ---------------------------------------------------------------------------------------------------------------
+-- C05 (the dump of a loaded script) and C15 (the Avro export)
+
+theorem Proved.colSafe_eq (s : Stmt) : Proved.stmtColSafe s = s.colSafe := by
+  cases s <;> rfl
+
+/-- **inside the executable scope, the dump of a loaded script describes the script's schema**: what the model prints for
+    the loaded script against the empty history, executed on the empty schema by the reference engine, is well-formed
+    and ends in the schema the script describes (`Spec.c01` with an empty old side) -/
+theorem proved_dump (g : Globals) (rc : Bool) (ss : List Stmt) (db : DB) (he : execAll rc [] ss = some db)
+    (h : Proved.dump g ss db = true) :
+    ∃ up, modelUp g [] ss = .ok up ∧ c01 g.ignoreOrder [] db up false = .ok () :=
+  proved_up g rc [] ss [] db rfl he h
+
+/-- **inside the executable scope, the Avro export is the export of the reference schema** -/
+theorem proved_avro (g : Globals) (rc : Bool) (ss : List Stmt) (db : DB) (he : execAll rc [] ss = some db)
+    (h : Proved.avro g ss = true) (need : List String) :
+    ∃ m, ReaderMysql.run {} ss = .ok m ∧
+      Avro.arvoSchema g.dialect m need =
+        (Exports.selectDB db need).map (fun t => Avro.schemaOf t.name (Exports.avroFields t)) := by
+  unfold Proved.avro at h
+  simp only [Bool.and_eq_true, beq_iff_eq] at h
+  rw [Proved.all_eq _ _ _ Proved.colSafe_eq] at h
+  rw [h.1]
+  exact avro_of_schema rc ss db h.2 he need
 
 end Sqlize
